@@ -644,6 +644,8 @@ class ContractMixin:
                     (key + "#none", z3.ArraySort(RefS, z3.BoolSort()))]
         if ty[0] == "dict":
             return self.dict_heap_keys(key, ty)
+        if ty[0] == "set":
+            return [(key + "#mem", self.set_sort())]
         return [(key, z3.ArraySort(RefS, sort_of(ty)))]
 
     def contract_frame(self, c, info, bound, st):
